@@ -143,7 +143,19 @@ class C12(Check):
                           chunksize=int(rng.choice([7, 50, 10**6])), **extra.get("kw", {}))
         # the caller goes on using (and modifying) its own centre array: the catalog must not change with it
         cobj.data += 0.25
-        for tag, c in (("created", cat), ("reopened", Catalog(tmp / "c", max_workers=1))):
+        # a copy of the cache made by a tool that does not preserve time stamps (data files newer than meta.yml)
+        import os
+        import shutil
+        import time
+
+        shutil.copytree(tmp / "c", tmp / "c-copy")
+        now = time.time()
+        for f in (tmp / "c-copy").glob("patch_*/meta.yml"):
+            os.utime(f, (now - 3600, now - 3600))
+        for f in (tmp / "c-copy").glob("patch_*/data.bin"):
+            os.utime(f, (now, now))
+        for tag, c in (("created", cat), ("reopened", Catalog(tmp / "c", max_workers=1)),
+                       ("reopened-copy", Catalog(tmp / "c-copy", max_workers=1))):
             check_catalog_meta(c, bad, counters, tag)
             counters["alignment_checks"] = counters.get("alignment_checks", 0) + 1
             if list(c.keys()) != list(range(P)):
